@@ -286,15 +286,22 @@ def e08_required_after_optional(tree, pts, ins, pick):
             p = pick(c0)
             names = _all_names(p)
             follower = {"tag": "field", "name": _fresh(names, "zreq"), "type": "char"}
+            if pick([0, 1, 2]) == 0:
+                follower = {"tag": "field", "name": None, "type": "char", "value": "5"}   # unnamed constant: required too
             _switch_then_follower(p, pick, [{"tag": "field", "name": "zo", "type": "char", "optional": True}], follower)
             return "via_nonlast_case:" + p.placement
     c = [p for p in _clean(pts) if p.opt]
     if not c:
         return None
     p = pick(c)
-    kind = pick(["field", "array", "length"])
+    kind = pick(["field", "array", "length", "hardcoded_unnamed", "hardcoded_named"])
     nm = _fresh(_all_names(p))
-    if kind == "field":
+    if kind == "hardcoded_unnamed":
+        # a constant is written unconditionally: it is a required member like any other
+        p.lst.insert(p.idx, {"tag": "field", "name": None, "type": pick(["char", "short", "string"]), "value": "7"})
+    elif kind == "hardcoded_named":
+        p.lst.insert(p.idx, {"tag": "field", "name": nm, "type": pick(["char", "short"]), "value": "7"})
+    elif kind == "field":
         p.lst.insert(p.idx, {"tag": "field", "name": nm, "type": "char"})
     elif kind == "array":
         p.lst.insert(p.idx, {"tag": "array", "name": nm, "type": "char", "length": "2"})
@@ -440,7 +447,7 @@ def e12_length_on_non_string(tree, pts, ins, pick):
 def e13_bad_enum(tree, pts, ins, pick):
     enums = _types(tree, "enum")
     d, e = pick(enums)
-    mode = pick(["text", "dup_ordinal", "dup_name", "non_numeric_type", "self_type", "missing_type",
+    mode = pick(["text", "dup_ordinal", "dup_ordinal", "dup_ordinal", "dup_name", "non_numeric_type", "self_type", "missing_type",
                  "field_enum_string", "field_abc", "override_on_int", "override_on_struct", "override_self"])
     if mode == "text":
         e["values"].append({"name": "Zzz", "ord": 0, "text": pick(["abc", "1x", "", "0x10"])})
@@ -448,7 +455,18 @@ def e13_bad_enum(tree, pts, ins, pick):
         with_values = [(dd, x) for (dd, x) in enums if x["values"]]
         d, e = pick(with_values)          # PacketFamily / PacketAction always have values
         if mode == "dup_ordinal":
-            e["values"].append({"name": "Zzz", "ord": e["values"][0]["ord"]})
+            o = pick(e["values"])["ord"]
+            v = {"name": "Zzz", "ord": o}
+            sp = pick(["zero", "plus", "same", "group"])
+            if sp == "zero":
+                v["text"] = "0" + str(o)          # the same ordinal, spelled differently
+            elif sp == "plus":
+                v["text"] = "+" + str(o)
+            elif sp == "group" and o >= 10:
+                v["text"] = str(o)[0] + "_" + str(o)[1:]
+            if "text" in v:
+                mode = "dup_ordinal_respelled"
+            e["values"].append(v)
         else:
             e["values"].append({"name": e["values"][0]["name"], "ord": max(v["ord"] for v in e["values"]) + 1})
     elif mode == "non_numeric_type":
